@@ -117,6 +117,46 @@ func main() {
 			}
 			return v.String(), "200"
 		})
+	case "bigfiles":
+		// C17: several goroutines load and run different multi-block source files (with modules)
+		// at the same time: every one must get its own program, decoded losslessly
+		nfiles := *g
+		paths := make([]string, nfiles)
+		for k := 0; k < nfiles; k++ {
+			d := filepath.Join(*dir, fmt.Sprintf("big%d", k))
+			os.MkdirAll(d, 0o755)
+			var sb strings.Builder
+			sb.WriteString(fmt.Sprintf("导入“模%d”\n", k))
+			filler := strings.Repeat(string(rune(0x4E00+k*7)), 61+k) + "é😀"
+			for ln := 0; ln < 220; ln++ {
+				sb.WriteString(fmt.Sprintf("注：第%d行 %s\n", ln, filler))
+			}
+			sb.WriteString(fmt.Sprintf("令尾 = “%s”\n输出【（取模：%d），尾之长度】\n", filler, k))
+			paths[k] = filepath.Join(d, "main.zn")
+			os.WriteFile(paths[k], []byte(sb.String()), 0o644)
+			var mb strings.Builder
+			for ln := 0; ln < 150; ln++ {
+				mb.WriteString(fmt.Sprintf("注：模块%d 第%d行 %s\n", k, ln, filler))
+			}
+			mb.WriteString(fmt.Sprintf("如何取模？\n\t输入数\n\t输出 “模%d-{}” %% 【数】\n", k))
+			os.WriteFile(filepath.Join(d, fmt.Sprintf("模%d.zn", k)), []byte(mb.String()), 0o644)
+		}
+		run(*g, *n, *seed, &sum, &mu, note, func(id string, rng *rand.Rand) (string, string) {
+			var k int
+			fmt.Sscanf(id, "tok-%d-", &k)
+			if rng.Intn(3) == 0 {
+				k = rng.Intn(nfiles)
+			}
+			want := fmt.Sprintf("[模%d-%d，%d]", k, k, 61+k+2)
+			v, err := newInterp().LoadFile(paths[k]).Execute(r.ElementMap{})
+			if err != nil {
+				return "ERR(file " + fmt.Sprint(k) + "): " + err.Error(), "500"
+			}
+			if v.String() != want {
+				return "file " + fmt.Sprint(k) + " yields " + v.String() + ", expected " + want, "200"
+			}
+			return id, "200"
+		})
 	case "badresp":
 		// C10: a program served by ZnHttpHandler answers with an HTTP响应 object whose parts have
 		// the wrong type or a status no HTTP response can carry. The host must answer (with an
